@@ -235,5 +235,27 @@ func propTable() map[string]*PropSpec {
 			Outside:     []string{"the clause about a correct leader proposing only after collecting votes is decided by the C09 harness (leader side); more than 4 votes; several proofs beyond the listed masks"},
 		}
 	}
+	// ---------------- C03 / C04 (same runs, different assertion labels) ----------------
+	{
+		mk := func(me, honest, sym int) RunConfig {
+			c := rc(fmt.Sprintf("C03_Commits/me=%d/honest=%d/sym=%d", me, honest, sym), ".", "C03_Commits", map[string]int{"me": me, "honest": honest, "sym": sym})
+			c.RequireReach = []string{"C03.committed"}
+			return c
+		}
+		q := []RunConfig{mk(1, 2, 1), mk(1, 1, 2), mk(0, 1, 2), mk(1, 3, 1), mk(2, 0, 3)}
+		th := append([]RunConfig{}, q...)
+		th = append(th, mk(0, 0, 3), mk(3, 1, 2), mk(3, 2, 2), mk(0, 2, 2), mk(1, 0, 3))
+		common := []string{"ideal signature registry, proposal/commitment stubs, committee of 4 equal weights", "the validating peer is a second real WorkerLoop with the same committee and (empty) previous proof"}
+		t["C03"] = &PropSpec{ID: "C03", Quick: q, Thorough: th, LabelPrefixes: []string{"C03."},
+			Assumptions: common,
+			Bounds:      []string{"one node (leader or follower) holding the view-0 proposal receives h genuine COMMITs then k fully symbolic COMMITs (h+k<=4, k<=3; header type tag, instance, height, view, hash, sender incl. outsiders with valid keys, signature and share validity all symbolic); also exercised at every commit of the C01 runs"},
+			Outside:     []string{"commits in views > 0 other than those of the C01/C09 runs; committees other than 4 equal-weight members"},
+		}
+		t["C04"] = &PropSpec{ID: "C04", Quick: q, Thorough: th, LabelPrefixes: []string{"C04."},
+			Assumptions: common,
+			Bounds:      []string{"same runs as C03; 'approved by a correct member' is judged at the committing node itself: the block was approved by its own ValidateBlockProposal or produced by its own RequestNewBlockProposal"},
+			Outside:     []string{"approval by *another* correct member only (multi-node; see C01 harness)"},
+		}
+	}
 	return t
 }
